@@ -1,6 +1,8 @@
 package keeper
 
 import (
+	"math/big"
+
 	feemarkettypes "github.com/EscanBE/evermint/v12/x/feemarket/types"
 	"github.com/cosmos/cosmos-sdk/telemetry"
 	sdk "github.com/cosmos/cosmos-sdk/types"
@@ -24,7 +26,9 @@ func (k Keeper) updateBaseFeeForNextBlock(ctx sdk.Context) {
 
 	defer func() {
 		telemetry.SetGauge(func() float32 {
-			return float32(baseFee.Int64())
+			// the base fee is not bounded by int64: Int64() would panic out of the end blocker
+			f, _ := new(big.Float).SetInt(baseFee.BigInt()).Float32()
+			return f
 		}(), "feemarket", "base_fee")
 	}()
 
